@@ -320,6 +320,8 @@ def rule_loopvar(c: Ctx) -> RuleResult:
                         pre_ = z.copy()
                         assume(z, loop.test, True)
                         prob._find_refine(z, pre_, loop.test, True, 0)
+                        if any((t, not pol) in z.preds for (t, pol) in z.preds):
+                            continue          # the loop test contradicts what the path established (`closed` set, `while not closed`): the path leaves the loop
                     outs.append((p, z))
             how = ""
             for (g, v), (_, why) in zip(ghosts[h.id], cands[h.id]):
